@@ -45,7 +45,10 @@ Technique (numbers = the ALLOWED devices of RULES_GUIDE.md "What counts as stati
       prescribes there), set algebra on constants.  Lemmas S0, S1, S2.
   R6  1 (attribute reads on values typed as cstruct instances; syntax trees of the installed dissect.cstruct sources).
   R7  1, 6 (table keys); 3 (entries applied to a symbolic argument); execute list: 3, 5 (one run per InjectExecutor
-      member of CS_DEF), 2, lemmas D1, D2, B1, B2, I0; process-inject transform: 3 with forks over the symbolic tests
+      member of CS_DEF), 2, lemmas D1, D2, B1, B2, I0; start-address arguments of the executors that read (offset, module,
+      function) - located by that role, not by name: 3 (the leaves of the appended entry's term: every integer it shows must
+      be dec(read #2 of the iteration, whole, big-endian, unsigned) - lemma F0 -, the strings it shows are read #4 then read
+      #6, stream order; a text whose leaves cannot be found is undecided); process-inject transform: 3 with forks over the symbolic tests
       (a `for` over a constant tuple of the code is followed once per element of that constant); NUL cut: 3 (the returned
       term compared structurally with the finitely many forms of lemma P0); codec: 6 (constant) against the alias
       table of lemma C0.
@@ -156,7 +159,9 @@ def run(ctx):
         "compared structurally with what the format prescribes: for every TransformStep opcode the client-program parser must "
         "read and emit exactly what its arity class prescribes (no argument / 32-bit big-endian length prefix / BUILD "
         "selector 0->build target, 1->'output'), the recover parser the prescribed literal with True or the decoded length, "
-        "the execute-list parser the prescribed argument reads per InjectExecutor, the section-table parser one entry per "
+        "the execute-list parser the prescribed argument reads per InjectExecutor (and the entry text of an executor with a spoofed start address "
+        "must be built from the module string, then the function string, and - as its only integer - the offset decoded big-endian unsigned over the "
+        "whole 2-byte read that follows the opcode), the section-table parser one entry per "
         "non-zero (start, end) in stream order, and after every well-formed step the loop must go on; every integer decoded "
         "in the program parsers is a 4-byte big-endian unsigned decode of a whole 4-byte read; BeaconGate: the option set is a "
         "symbolic subset of the flag names, every comparison of it with a constant set (issuperset, >=, >, ==, truth, len ...) is a "
@@ -178,6 +183,7 @@ def run(ctx):
     )
     rep.not_decided = ["decoded byte arguments for all programs", "parse_gargle endianness (no independent reference)", "killdate formatting, IPv4 rendering", "whether domains / uris are de-duplicated at all (only by which member)",
                        "a signed decode of the frame-header length prefix (undecided)",
+                       "execute list: the literal parts of the entry text (separator '!', '+0x', hex formatting, omission of a zero offset) are not compared; an entry text whose reads / integers cannot be found as leaves of its term is undecided (R7 start-address obligations)",
                        "any test on an assumed or symbolic value that the lemmas of the module docstring do not decide (the obligation is then undecided)",
                        "BeaconGate: a test on the option set other than a comparison with a constant set, its truth or its size (R5 undecided)",
                        "R11: retention of a decoded value through channels other than decorators, module-level wrappers, stores into / loads from non-local names (e.g. caches kept inside BeaconConfig instances, which are per object); a retained value whose mutability is not known is undecided",
@@ -209,6 +215,7 @@ def run(ctx):
                         "lemma C0: latin-1 (and its aliases) maps every byte to exactly one character",
                         "lemma W0: byte windows - slices with non-negative in-range bounds, x[:-k], nested slices and complete stream reads denote (offset, length) windows of the data",
                         "lemma O0: dicts keep first-insertion order of distinct keys; `if x not in acc: acc.append(x)` keeps first occurrences",
+                        "execute list format: opcode byte; for the executors with a spoofed start address a big-endian unsigned 16-bit offset, then module and function as u32be-length-prefixed strings, shown as module!function+0xoffset",
                         "frame header format (property statement): u16be L, L - 4 header bytes, 4-byte frame-size placeholder; a well-formed L is >= 4",
                         "settings block format: a TYPE_SHORT / TYPE_INT value is 2 / 4 bytes, network byte order, unsigned (_FIXED_WIDTH in rules/c03.py); a TYPE_PTR value is `length` raw bytes; "
                         "the value of a well-formed fixed-size record has exactly the declared width",
@@ -3068,6 +3075,83 @@ def _execute_outcomes(ctx):
     return out
 
 
+def _arg_leaves(d, out):
+    """the reads and decoded integers a value description is built from, in order of appearance"""
+    if isinstance(d, tuple) and d:
+        if (d[0] == "int" and len(d) == 5) or (d[0] == "int@" and len(d) == 6) or (d[0] == "read" and len(d) == 2):
+            out.append(d)
+            return out
+        for x in d[1:]:
+            _arg_leaves(x, out)
+    return out
+
+
+def _show_leaf(d):
+    if d[0] == "int@":
+        return f"<{_show(d[3])}-byte {d[4]}-endian {'signed' if d[5] else 'unsigned'} int at offset {_show(d[2])} of read #{d[1] + 1}>"
+    return _show(d)
+
+
+def _execute_arguments(ctx, f, out):
+    """The arguments of an executor with a spoofed start address (located by role: the InjectExecutor members whose
+    iteration reads opcode, 2 bytes, length + string, length + string - class 'args' of `_execute_outcomes`; the reads
+    of the iteration are then #1 opcode, #2 offset, #4 module, #6 function).  The entry the iteration appends is a term
+    over those reads; its leaves (reads / integers decoded from reads, device 3) say which encoded argument is shown
+    where:
+      * every integer the entry text is built from is the offset: the unsigned big-endian integer over the whole 2-byte
+        read that follows the opcode (lemma F0: the other byte order / a signed decode / another read differ for some
+        well-formed offset, e.g. 0x1000 or 0x8000);
+      * the strings the text is built from are the module (read #4) and the function (read #6), first shown in that order."""
+    an = _Analysis.of(ctx)
+    root = an.root(_XL)
+    special = sorted(n for n, (c, _x) in out.items() if c == "args")
+    t_int, t_ord = "start-address offset", "start-address text = module!function"
+    if not special or root is None:
+        why = "no executor that reads (offset, module, function) arguments was located" if root is not None else "the list the parser returns could not be located"
+        ctx.undecided("R7", "AGREE", f, t_int, why, f.node)
+        ctx.undecided("R7", "AGREE", f, t_ord, why, f.node)
+        return
+    want = ("int", 1, ("int", 2), "big", False)
+    ints, orders, entries, unsure = {}, {}, 0, []
+    for label, paths, stop in _execute_steps_runs(ctx):
+        name = label[len("executor "):]
+        if name not in special or stop is not None:
+            continue
+        for p in paths:
+            if not p.st.reads:
+                continue
+            items, opaque = p.items(root)
+            if opaque or len(items) != 1:
+                continue
+            if p.imprecise:
+                unsure.append(p.imprecise[0])
+                continue
+            entries += 1
+            first = []
+            for lf in _arg_leaves(items[0], []):
+                if lf[0] == "read":
+                    if lf[1] not in first:
+                        first.append(lf[1])
+                else:
+                    ints.setdefault(lf, name)
+            orders.setdefault(tuple(first), name)
+    if not ints:
+        ctx.undecided("R7", "AGREE", f, t_int, "no integer decoded from the list was found in the text reported for " + ", ".join(special)
+                      + (f" ({unsure[0]})" if unsure else f" ({entries} entries looked at)"), f.node)
+    else:
+        bad = sorted((lf for lf in ints if lf != want), key=repr)
+        ctx.ob("R7", "AGREE", f, t_int, not bad,
+               (f"the text reported for {ints[bad[0]]} shows {_show_leaf(bad[0])}" if bad else f"the text reported for {', '.join(special)} shows {_show_leaf(want)}")
+               + "; required: the offset = the unsigned big-endian integer over the whole 2-byte read that follows the opcode (every multi-byte integer of the settings block is big-endian)", f.node)
+    located = {o for o in orders if set(o) == {3, 5}}
+    if not located or located != set(orders):
+        odd = sorted(set(orders) - located)
+        ctx.undecided("R7", "AGREE", f, t_ord, (f"the reported text is built from reads {[[i + 1 for i in o] for o in odd]} of the iteration, not from the module (read #4) and the function (read #6) alone" if odd
+                                                 else "no reported text built from the reads of the iteration was found") + (f" ({unsure[0]})" if unsure else ""), f.node)
+    else:
+        ctx.ob("R7", "AGREE", f, t_ord, located == {(3, 5)}, f"the reported text shows the strings of reads {sorted([i + 1 for i in o] for o in located)} of the iteration in this order; required [[4, 6]] (module, then function - stream order)", f.node)
+
+
 # ----------------------------------------------------------------------------------------------- process-inject transform
 def _inject_steps(ctx):
     an = _Analysis.of(ctx)
@@ -3527,6 +3611,7 @@ def r7(ctx):
     else:
         ctx.ob("R7", "TABLE", f, "special executors", spec == ["CreateRemoteThread_", "CreateThread_"] and not other,
                f"executors with (offset, module, function) arguments: {spec}" + (f"; neither plain nor with arguments: { {n: d[:160] for n, d in other.items()} }" if other else ""), f.node)
+    _execute_arguments(ctx, f, out)
     # process-inject transform: (length, bytes) twice, reported as append then prepend
     g = ctx.repo.func(_PI)
     an = _Analysis.of(ctx)
